@@ -200,6 +200,28 @@ def run_case(case, tier):
     # ---- tier 1
     motion.compare_heavy(run0, runT, back_key, viol, counts, classes)
     counts["tier1"] = 1
+    if not viol and run0.text and runT.text:
+        # the written report: same rows in the same order, and inside a row the same partners in the same
+        # order (labels do not move with the frame) wherever both frames list the same partners
+        try:
+            tab0 = obs.parse_det_rows(obs.parse_pka_text(run0.text)["det_rows"])
+            tabT = obs.parse_det_rows(obs.parse_pka_text(runT.text)["det_rows"])
+        except ValueError:
+            tab0 = tabT = []
+        counts["report_rows_compared"] = counts.get("report_rows_compared", 0) + len(tab0)
+        if [r_["label"] for r_ in tab0] != [r_["label"] for r_ in tabT]:
+            viol.append({"cls": "pose-changes-report-order", "msg": "the determinant table lists its groups in another order after the motion"})
+        else:
+            for r0_, rT_ in zip(tab0, tabT):
+                for t_ in ("sidechain", "backbone", "coulomb"):
+                    l0, lT = [x[1] for x in r0_["cells"][t_]], [x[1] for x in rT_["cells"][t_]]
+                    if l0 != lT and sorted(l0) == sorted(lT):
+                        viol.append({"cls": "pose-changes-report-order", "msg": "row %s, %s determinants: %r in the original frame, %r after the motion" % (
+                            r0_["label"], t_, l0[:4], lT[:4])})
+                        break
+                else:
+                    continue
+                break
     amino = all(r.raw is not None or r.tag == "ATOM  " for r in recs) and len(run0.rec["names"]) == 1
     if viol:
         # tiers 2 and 3 compare pKa values on top of identical heavy-atom quantities; when tier 1
